@@ -338,3 +338,7 @@ b("C10-b13", "C10", GC_PY, "    if prune and not dry_run and grace_period is not
   "    if prune and not dry_run and grace_period is None:\n        for sha in list(unreachable_to_prune):\n            try:\n                if time.time() - object_store.get_object_mtime(sha) < 0:", "R10.14")
 n("C10-n9", "C10", GC_PY, "    if prune and not dry_run and grace_period is not None:\n        for sha in list(unreachable_to_prune):\n            try:\n                if time.time() - object_store.get_object_mtime(sha) < grace_period:\n                    unreachable_to_prune.discard(sha)\n            except KeyError:\n                unreachable_to_prune.discard(sha)\n\n    # Delete loose unreachable objects\n    if prune and not dry_run:\n        for sha in unreachable_to_prune:\n            if object_store.contains_loose(sha):\n",
   "    # Delete loose unreachable objects\n    if prune and not dry_run:\n        for sha in list(unreachable_to_prune):\n            if grace_period is not None:\n                try:\n                    if time.time() - object_store.get_object_mtime(sha) < grace_period:\n                        unreachable_to_prune.discard(sha)\n                        continue\n                except KeyError:\n                    unreachable_to_prune.discard(sha)\n                    continue\n            if object_store.contains_loose(sha):\n")
+b("C11-b9", "C11", IDX, "            for name, entry in entries.items():\n                self._byname[name] = entry\n                if self._normalized is not None:\n                    assert self._path_normalizer is not None\n                    self._normalized.setdefault(self._path_normalizer(name), name)\n",
+  "            for name, entry in entries.items():\n                self[name] = entry\n", "R11.9")
+n("C11-n9", "C11", IDX, "            for name, entry in entries.items():\n                self._byname[name] = entry\n                if self._normalized is not None:\n                    assert self._path_normalizer is not None\n                    self._normalized.setdefault(self._path_normalizer(name), name)\n",
+  "            self._byname.update(entries)\n            if self._normalized is not None:\n                assert self._path_normalizer is not None\n                for name in entries:\n                    self._normalized.setdefault(self._path_normalizer(name), name)\n")
